@@ -126,7 +126,30 @@ class ThrRunner:
             n_threads=scn.get("n_threads", 1),
             logger=self.logger,
         )
-        self.sched = Scheduler(**kw)
+        # jobs handed to the constructor: leading ops flagged "ctor" are created directly as Job
+        # objects (at clock0) and passed as Scheduler(jobs=...)
+        self.ctor_results = []
+        ctor_jobs = []
+        for o in scn.get("ops", []):
+            if not (o.get("op") == "sch" and o.get("ctor")):
+                break
+            try:
+                key = self.do_sched(o, o.get("clock"), direct=True)
+                ctor_jobs.append(self.created[key])
+                self.ctor_results.append(("j", key))
+            except Exception as e:  # noqa: BLE001
+                self.ctor_results.append(("e", err_kind(e)))
+        if ctor_jobs or any(o.get("ctor") for o in scn.get("ops", [])):
+            kind = scn.get("ctor_kind", "set")
+            kw["jobs"] = set(ctor_jobs) if kind == "set" else list(ctor_jobs)
+        self.ctor_error = None
+        try:
+            self.sched = Scheduler(**kw)
+        except Exception as e:  # noqa: BLE001
+            self.ctor_error = err_kind(e)
+            kw.pop("jobs", None)
+            self.sched = Scheduler(**kw)
+        self.ctor_pos = 0
 
     # ------------------------------------------------------------ callbacks
     def make_cb(self, cell):
@@ -163,7 +186,7 @@ class ThrRunner:
                 self.cur.setdefault("cop_errors", []).append(err_kind(e))
 
     # ------------------------------------------------------------ ops
-    def do_sched(self, o, clock):
+    def do_sched(self, o, clock, direct=False):
         if clock is None:
             clock = o["clock"] = CLOCK.instant
         CLOCK.instant = clock
@@ -214,7 +237,15 @@ class ThrRunner:
                 kw["alias"] = o["alias"]
         with warnings.catch_warnings():
             warnings.simplefilter("ignore")
-            job = getattr(self.sched, call)(timing, cb, **kw)
+            if direct:
+                from scheduler.base.definition import JobType
+                from scheduler.threading.job import Job
+
+                jt = [JobType.CYCLIC, JobType.MINUTELY, JobType.HOURLY, JobType.DAILY, JobType.WEEKLY][o["call"]]
+                jtz = o["_jobtz"] if "_jobtz" in o else self.scn.get("tz")
+                job = Job(jt, ts, cb, tzinfo=tz_of(jtz), **kw)
+            else:
+                job = getattr(self.sched, call)(timing, cb, **kw)
         key = len(self.created)
         cell["job"] = job
         cell["key"] = key
@@ -243,7 +274,16 @@ class ThrRunner:
         k = o["op"]
         obs = {"res": None, "invoked": [], "prio": [], "order": None, "exact": True}
         try:
-            if k == "sch":
+            if k == "sch" and o.get("ctor"):
+                res = self.ctor_results[self.ctor_pos]
+                self.ctor_pos += 1
+                if self.ctor_error:
+                    res = ("e", self.ctor_error)
+                obs["res"] = res
+                if res[0] == "j":
+                    self.ctor_visible = res[1] + 1
+                obs["_visible"] = getattr(self, "ctor_visible", 0)
+            elif k == "sch":
                 key = self.do_sched(o, o.get("clock"))
                 obs["res"] = ("j", key)
             elif k == "exec":
@@ -292,6 +332,8 @@ class ThrRunner:
             obs["res"] = ("e", err_kind(e))
             obs["exc"] = repr(e)[:200]
         obs["jobs"] = self.snapshot()
+        if "_visible" in obs:
+            obs["jobs"] = {k: v for k, v in obs["jobs"].items() if k < obs["_visible"]}
         obs["logs"] = sum(1 for r in self.handler.records if r.levelno >= logging.ERROR)
         return obs
 
